@@ -254,15 +254,12 @@ def run_family(ctx, prefix="C05"):
         ctx.sample({"k": c["k"], "tag": c.get("tag"),
                     "shape": [(m["name"], len(m["idx"]) // 3, bool(m["uv"]), bool(m["nrm"]), len(m["mats"])) for m in c["meshes"]]
                     if c.get("meshes") else (c.get("seeded") or [s["t"] for s in c["gen"]][:30])})
-    # vacuity guard: every predicate must have been evaluated with its antecedent true
-    idle = [p for p in PREDICATES if ex.get(p, 0) == 0]
-    if idle:
-        raise core.Infra("predicates never exercised: %s" % idle)
-    per_sig = {}
+    per_sig, aux = {}, {}
     for f in findings:
         if f["pred"].startswith("Harness."):
             raise core.Infra("harness inconsistency %s at case %d (%s)" % (f["pred"], f["case"], f["why"]))
         if not f["pred"].startswith(prefix + "."):
+            aux[f["pred"]] = aux.get(f["pred"], 0) + 1      # Aux.*: beyond the statement, reported only
             continue
         c = cases[f["case"]]
         sig = signature(f, c)
@@ -272,7 +269,15 @@ def run_family(ctx, prefix="C05"):
         what = "%s rejected a %s %s case (%s)" % (f["pred"], c.get("tag", ""), c["k"], ",".join(f["why"]) or "see replay")
         ctx.violation(sig, what, {"family": "obj", "case": c})
     ctx.extra["rejections_by_signature"] = per_sig
-    if ctx.tier == "thorough":
+    ctx.extra["aux_flags_beyond_statement"] = aux
+    if aux:
+        core.log("[note] flags beyond the statement of %s (not a verdict): %s" % (prefix, aux))
+    # vacuity guard: every predicate must have been evaluated with its antecedent true (a defect that
+    # stops the pipeline early is reported as the violation it is, not as vacuity)
+    idle = [p for p in PREDICATES if ex.get(p, 0) == 0]
+    if idle and not ctx.violations:
+        raise core.Infra("predicates never exercised: %s" % idle)
+    if ctx.tier == "thorough" and not ctx.violations:
         ctx.extra["selftest_corruptions_rejected"] = selftest(ctx, raw)
     ctx.assumptions += [
         "the independent tokeniser (harness/objstl/obj_tok.go) reads OBJ text as the format description says",
